@@ -504,6 +504,148 @@ def builders():
         d = torch.ones(1, dtype=torch.float64)
         return O.ConstantDiagLinearOperator(d, diag_shape=D.n), {"diag": d}
 
+    # ---- rectangular and unequal-batch instances (shape bookkeeping of an existing operator must survive every operation)
+    def rect(name):
+        def deco(f):
+            B[name] = (f, False)
+            RECT.add(name)
+            return f
+        return deco
+
+    @rect("Zero(3x5)")
+    def _(D, L):
+        return O.ZeroLinearOperator(3, 5, dtype=torch.float64), {}
+
+    @rect("Zero(2,3,4,5)")
+    def _(D, L):
+        return O.ZeroLinearOperator(2, 3, 4, 5, dtype=torch.float64), {}
+
+    @rect("Zero(2,4,4)")
+    def _(D, L):
+        return O.ZeroLinearOperator(2, 4, 4, dtype=torch.float64), {}
+
+    @rect("Dense(3x5)")
+    def _(D, L):
+        a = L(D.mat(3, 5))
+        return O.DenseLinearOperator(a), {"tensor": a}
+
+    @rect("Dense(2,3,4,5)")
+    def _(D, L):
+        a = D.mat(2, 3, 4, 5)
+        return O.DenseLinearOperator(a), {"tensor": a}
+
+    @rect("Diag(2,3,4)")
+    def _(D, L):
+        d = D.pos(2, 3, 4)
+        return O.DiagLinearOperator(d), {"diag": d}
+
+    @rect("Identity(2,3|4)")
+    def _(D, L):
+        return O.IdentityLinearOperator(4, batch_shape=torch.Size([2, 3]), dtype=torch.float64), {}
+
+    @rect("Toeplitz(2,3,4)")
+    def _(D, L):
+        c = D.pos(2, 3, 4) + torch.tensor([4.0, 0, 0, 0], dtype=torch.float64)
+        return O.ToeplitzLinearOperator(c), {"column": c}
+
+    @rect("Triangular(2,3,4,4)")
+    def _(D, L):
+        a = torch.tril(D.mat(2, 3, 4, 4)) + 3 * torch.eye(4, dtype=torch.float64)
+        return O.TriangularLinearOperator(a), {"tensor": a}
+
+    @rect("Matmul(3x4,4x5)")
+    def _(D, L):
+        a, b = L(D.mat(3, 4)), L(D.mat(4, 5))
+        return O.MatmulLinearOperator(O.DenseLinearOperator(a), O.DenseLinearOperator(b)), {"a": a, "b": b}
+
+    @rect("Sum(3x5)")
+    def _(D, L):
+        a, b = L(D.mat(3, 5)), L(D.mat(3, 5))
+        return O.SumLinearOperator(O.DenseLinearOperator(a), O.DenseLinearOperator(b)), {"a": a, "b": b}
+
+    @rect("Sum(Zero,Dense)(3x5)")
+    def _(D, L):
+        a = L(D.mat(3, 5))
+        return O.SumLinearOperator(O.ZeroLinearOperator(*a.shape, dtype=torch.float64), O.DenseLinearOperator(a)), {"a": a}
+
+    @rect("ConstantMul(3x5)")
+    def _(D, L):
+        a, c = L(D.mat(3, 5)), D.pos(1).squeeze(0)
+        return O.ConstantMulLinearOperator(O.DenseLinearOperator(a), c), {"tensor": a, "const": c}
+
+    @rect("Kronecker(2x3,2x2)")
+    def _(D, L):
+        a, b = L(D.mat(2, 3)), L(D.mat(2, 2))
+        return O.KroneckerProductLinearOperator(O.DenseLinearOperator(a), O.DenseLinearOperator(b)), {"a": a, "b": b}
+
+    @rect("BlockInterleaved(3,2|3x4)")
+    def _(D, L):
+        a = D.mat(3, 2, 3, 4)
+        return O.BlockInterleavedLinearOperator(O.DenseLinearOperator(a)), {"blocks": a}
+
+    @rect("SumBatch(2,3|4x5)")
+    def _(D, L):
+        a = D.mat(2, 3, 4, 5)
+        return O.SumBatchLinearOperator(O.DenseLinearOperator(a)), {"blocks": a}
+
+    @rect("BatchRepeat(2|4x5 x(3,1))")
+    def _(D, L):
+        a = D.mat(2, 4, 5)
+        return O.BatchRepeatLinearOperator(O.DenseLinearOperator(a), torch.Size([3, 1])), {"tensor": a}
+
+    @rect("BatchRepeat(Zero 3x5 x(2,))")
+    def _(D, L):
+        return O.BatchRepeatLinearOperator(O.ZeroLinearOperator(3, 5, dtype=torch.float64), torch.Size([2])), {}
+
+    @rect("Cat(batch dim 0)")
+    def _(D, L):
+        a, b = D.mat(2, 3, 5), D.mat(1, 3, 5)
+        return O.CatLinearOperator(O.DenseLinearOperator(a), O.DenseLinearOperator(b), dim=0), {"a": a, "b": b}
+
+    @rect("Cat(cols)")
+    def _(D, L):
+        a, b = L(D.mat(4, 2)), L(D.mat(4, 3))
+        return O.CatLinearOperator(O.DenseLinearOperator(a), O.DenseLinearOperator(b), dim=-1), {"a": a, "b": b}
+
+    @rect("Interpolated(5x3)")
+    def _(D, L):
+        a = L(D.psd(4))
+        li, lv = torch.tensor([[0, 1], [1, 2], [2, 3], [3, 0], [0, 2]]), D.pos(5, 2)
+        ri, rv = torch.tensor([[0, 1], [1, 2], [2, 3]]), D.pos(3, 2)
+        if a.dim() > 2:
+            li, lv, ri, rv = li.expand(2, 5, 2), lv.expand(2, 5, 2), ri.expand(2, 3, 2), rv.expand(2, 3, 2)
+        return O.InterpolatedLinearOperator(O.DenseLinearOperator(a), li, lv, ri, rv), \
+            {"base": a, "left_idx": li, "left_val": lv, "right_idx": ri, "right_val": rv}
+
+    @rect("Masked(3x4 of 5x5)")
+    def _(D, L):
+        a = L(D.psd())
+        rm, cm = torch.tensor([True, False, True, True, False]), torch.tensor([True, True, False, True, True])
+        return O.MaskedLinearOperator(O.DenseLinearOperator(a), rm, cm), {"tensor": a, "row_mask": rm, "col_mask": cm}
+
+    @rect("LowRankRoot(2,3|5x2)")
+    def _(D, L):
+        r = D.mat(2, 3, 5, 2)
+        return O.LowRankRootLinearOperator(r), {"root": r}
+
+    @rect("KernelLO(4x3)")
+    def _(D, L):
+        x1, x2, ls = L(D.mat(4, 2)), L(D.mat(3, 2)), D.pos(1, 1)
+
+        def covar(x1, x2, lengthscale):
+            return torch.exp(-0.5 * torch.cdist(x1 / lengthscale, x2 / lengthscale) ** 2)
+        return O.KernelLinearOperator(x1, x2, covar, lengthscale=ls, num_nonbatch_dimensions={"lengthscale": 2}), {"x1": x1, "x2": x2, "ls": ls}
+
+    @rect("Mul(2,3|4x4)")
+    def _(D, L):
+        a, b = D.mat(2, 3, 4, 2), D.mat(2, 3, 4, 2)
+        return O.MulLinearOperator(O.RootLinearOperator(a), O.RootLinearOperator(b)), {"a": a, "b": b}
+
+    @rect("Permutation(2,3|4)")
+    def _(D, L):
+        p = torch.tensor([2, 0, 1, 3]).expand(2, 3, 4).contiguous()
+        return O.PermutationLinearOperator(p), {"perm": p}
+
     return B
 
 
@@ -836,6 +978,82 @@ def operations():
             return ciq(op, A["rhs"], inverse=True, weights=A["w"], shifts=A["sh"], num_contour_quadrature=5,
                        max_lanczos_iter=5, shift_offset=0.25)
 
+    # ---- shape-manipulating operations (a transposed / summed / permuted *result* must not disturb the operand)
+    def nb(op):
+        return len(op.shape) - 2
+
+    @reg("mT")
+    def _(op, D, L, A):
+        return op.mT.to_dense()
+
+    @reg("transpose_dims")
+    def _(op, D, L, A):
+        r = op.transpose(-1, -2).to_dense()
+        if nb(op) >= 2:
+            r = op.transpose(0, 1).to_dense()
+        if nb(op) >= 1:
+            r = op.transpose(-2, -1).transpose(-1, -2).to_dense()
+        return r
+
+    @reg("sum_rows")
+    def _(op, D, L, A):
+        return op.sum(-2)
+
+    @reg("sum_cols")
+    def _(op, D, L, A):
+        return op.sum(-1)
+
+    @reg("sum_batch_and_all")
+    def _(op, D, L, A):
+        r = op.sum()
+        if nb(op) >= 1:
+            r = op.sum(0)
+            r = r.to_dense() if hasattr(r, "to_dense") else r
+        return r
+
+    @reg("permute_batch")
+    def _(op, D, L, A):
+        if nb(op) >= 2:
+            return op.permute(1, 0, -2, -1).to_dense()
+        return op.permute(*range(nb(op)), -2, -1).to_dense()
+
+    @reg("unsqueeze_squeeze_expand")
+    def _(op, D, L, A):
+        u = op.unsqueeze(0)
+        r = u.squeeze(0).to_dense()
+        return u.expand(3, *op.shape).to_dense() + r
+
+    @reg("repeat")
+    def _(op, D, L, A):
+        return op.repeat(2, *([1] * len(op.shape))).to_dense()
+
+    @reg("getitem_batch")
+    def _(op, D, L, A):
+        if nb(op) >= 1:
+            return op[0].to_dense() + op[-1].to_dense()
+        return op[:, :].to_dense()
+
+    @reg("clone_detach_convert")
+    def _(op, D, L, A):
+        c = op.clone()
+        d = op.detach()
+        e = op.to(torch.float64)
+        f = op.float()
+        return op.representation_tree()(*op.representation()).to_dense() + c.to_dense() + d.to_dense() + e.to_dense() + f.to_dense().double()
+
+    @reg("arith_ops")
+    def _(op, D, L, A):
+        return (op + op).to_dense() + (op * -1.0).to_dense() + (op / 2.0).to_dense() + (op - op).to_dense() + (op * 3.0).to_dense()
+
+    @reg("matmul_op_op")
+    def _(op, D, L, A):
+        return (op @ op.mT).to_dense() + torch.matmul(op.mT, op).to_dense().sum()
+
+    @reg("size_queries")
+    def _(op, D, L, A):
+        return (op.size(), op.shape, op.dim(), op.numel(), op.batch_shape, op.matrix_shape, op.size(-1), op.size(-2), op.is_square,
+                op.dtype, op.device, op.requires_grad, repr(op), len(op.representation()))
+
     return OPS
 
 
@@ -1146,11 +1364,84 @@ def utilities():
     return U
 
 
+def _is_cache_attr(k):
+    return k in ("_memoize_cache", "_args_memo") or bool(c13_alias.ATTR_STORE_OK.search(k)) or k.endswith("_memo") or k.endswith("_cache")
+
+
+def op_state(obj, depth=0):
+    """canonical description of everything NON-storage an operator is defined by: shape, and every python-level attribute
+    (ints, lists, tuples, dicts, flags, sub-operators recursively; small tensors by value, large ones by shape/dtype).
+    Cache attributes (memoize cache, *_memo, *_cache, the reviewed attribute allowlist) are skipped."""
+    from linear_operator.operators import LinearOperator
+    if depth > 6:
+        return "..."
+    if isinstance(obj, LinearOperator):
+        try:
+            shp = tuple(obj.shape)
+        except Exception as e:
+            shp = "shape-raises:" + type(e).__name__
+        items = [(k, op_state(v, depth + 1)) for k, v in sorted(vars(obj).items()) if not _is_cache_attr(k)]
+        return ("LO", type(obj).__name__, shp, items)
+    if isinstance(obj, torch.Tensor):
+        if obj.is_sparse:
+            return ("sparseT", tuple(obj.shape), str(obj.dtype))
+        if obj.numel() <= 64:
+            return ("T", tuple(obj.shape), str(obj.dtype), tuple(obj.detach().reshape(-1).tolist()))
+        return ("T", tuple(obj.shape), str(obj.dtype))
+    if isinstance(obj, torch.Size):
+        return ("Size", tuple(obj))
+    if isinstance(obj, (list, tuple)):
+        return (type(obj).__name__, tuple(op_state(x, depth + 1) for x in obj))
+    if isinstance(obj, dict):
+        return ("dict", tuple((repr(k), op_state(v, depth + 1)) for k, v in sorted(obj.items(), key=lambda kv: repr(kv[0]))))
+    if isinstance(obj, (int, float, bool, str, type(None), torch.dtype, torch.device, slice)):
+        return repr(obj)
+    return "<" + type(obj).__name__ + ">"
+
+
+def diff_state(a, b, path="op"):
+    if a == b:
+        return None
+    if isinstance(a, tuple) and isinstance(b, tuple) and a and b and a[0] == "LO" and b[0] == "LO":
+        if a[1] != b[1]:
+            return f"{path}: class {a[1]} -> {b[1]}"
+        if a[2] != b[2]:
+            return f"{path}: shape {a[2]} -> {b[2]}"
+        da, db = dict(a[3]), dict(b[3])
+        for k in da:                    # attributes that appear only afterwards are (lazily filled) caches
+            if k not in db:
+                return f"{path}.{k}: attribute removed"
+            d = diff_state(da[k], db[k], f"{path}.{k}")
+            if d:
+                return d
+        return None
+    if isinstance(a, tuple) and isinstance(b, tuple) and len(a) == len(b) and a and a[0] in ("list", "tuple", "dict") and a[0] == b[0]:
+        if len(a[1]) != len(b[1]):
+            return f"{path}: {a[0]} length {len(a[1])} -> {len(b[1])}"
+        for i, (x, y) in enumerate(zip(a[1], b[1])):
+            d = diff_state(x, y, f"{path}[{i}]")
+            if d:
+                return d
+        return None
+    return f"{path}: {str(a)[:60]} -> {str(b)[:60]}"
+
+
+def fresh_dense(op):
+    """the matrix the operator represents, computed without the to_dense cache: op._matmul(I)"""
+    try:
+        eye = torch.eye(op.shape[-1], dtype=op.dtype if op.dtype.is_floating_point else torch.float64)
+        r = op._matmul(eye)
+        return r.detach().clone() if isinstance(r, torch.Tensor) else None
+    except Exception:
+        return None
+
+
 # ----------------------------------------------------------------------------- one case
 BUILDERS = OPS = UTILS = None
 NESTED = set()     # builders of Identity/Zero-based nestings
+RECT = set()       # rectangular / unequal-batch instances
 # operations run on the nestings in the quick tier (everything in thorough)
-NESTED_QUICK_OPS = {"matmul", "matmul_vec", "rmatmul", "t_matmul", "solve", "solve_left", "solve_cg", "solve_vec_cg", "inv_quad",
+NESTED_QUICK_OPS = {"mT", "transpose_dims", "sum_rows", "sum_cols", "matmul_op_op", "matmul", "matmul_vec", "rmatmul", "t_matmul", "solve", "solve_left", "solve_cg", "solve_vec_cg", "inv_quad",
                     "inv_quad_logdet", "inv_quad_logdet_cg", "sqrt_inv_matmul", "backward_sqrt_inv_matmul", "root_decomposition_lanczos",
                     "add_low_rank", "zero_mean_mvn_samples", "diagonalization_lanczos", "backward_solve_cg", "backward_inv_quad_logdet",
                     "matmul_identity_rhs", "root_inv_decomposition_lanczos", "pivoted_cholesky", "mul_op"}
@@ -1201,7 +1492,12 @@ def execute(kind, name, opname, layout, seed):
             for k, v in prot.items():
                 wl.protected[sptr(v)] = k
             snap_op = snapshot(prot)
+            state0 = op_state(op)
+            fd0 = fresh_dense(op)
             dense0 = op.to_dense().clone()
+            d0 = diff_state(state0, op_state(op))
+            if d0:
+                problems.append("operator state changed by to_dense()/_matmul(I): " + d0)
             g = OPS[opname][1]
             call = lambda: g(op, D, L, A)      # noqa: E731
         else:
@@ -1224,6 +1520,14 @@ def execute(kind, name, opname, layout, seed):
                 problems.append("operator: to_dense() of the pre-existing operator changed")
         except Exception as e:
             problems.append(f"operator: to_dense() raises after the call: {type(e).__name__}")
+        d = diff_state(state0, op_state(op))
+        if d:
+            problems.append("operator state changed: " + d)
+        if fd0 is not None:
+            fd1 = fresh_dense(op)
+            if fd1 is None or fd1.shape != fd0.shape or not torch.allclose(fd1, fd0, rtol=1e-9, atol=1e-11, equal_nan=True):
+                problems.append("operator: cache-free re-densification op._matmul(I) changed "
+                                f"({tuple(fd0.shape)} -> {None if fd1 is None else tuple(fd1.shape)})")
     for rel, line, opn, p, pname in wl.writes:
         if rel is None:
             continue        # harness-level op (no library frame on the stack)
